@@ -48,6 +48,17 @@ def _validate(run, module, cfg, traces, facts_of, chunk=1000, name=None):
     return n
 
 
+def _split_raised(run, records):
+    """A real run that raised is a violation of the property under check (the inputs are valid), not a record."""
+    ok = []
+    for t in records:
+        if t.get("kind") == "raised":
+            run.violation("real_run_raised", {"clause": "real_run_raised", "exc": t["exc"]}, t)
+        else:
+            ok.append(t)
+    return ok
+
+
 # ---------------------------------------------------------------------------------------------------------------
 # C14
 
@@ -352,12 +363,13 @@ def c04(tier, seed):
     _validate(run, "Trace_ConformalSplit", "Trace_ConformalSplit_C04.cfg", ranks, lambda t: {"kind": "rank", "p": t.get("p")}, name="Trace_ConformalSplit_C04 (rank grid)")
     _tick("c04 rank trace")
     # ---- code -> spec: calibration sets and corrections of real client runs
-    real = [t for part in real_async.get() for t in part]
+    real = _split_raised(run, [t for part in real_async.get() for t in part])
     run.witness("real_calibration_sets", len(real))
     _tick("c04 real runs")
     if any(t["robust"] for t in real):
         run.witness("real_robust_run")
-    run.sample({"recorded_calibration_set": {k: (v if not isinstance(v, list) else v[:6]) for k, v in real[0].items()}})
+    if real:
+        run.sample({"recorded_calibration_set": {k: (v if not isinstance(v, list) else v[:6]) for k, v in real[0].items()}})
     _validate(
         run,
         "Trace_ConformalSplit",
@@ -443,10 +455,11 @@ def c05(tier, seed):
     run.witness("replayed_through_client", len(csample))
     run.sample({"replayed_swing_scenario": {k: scens[0][k] for k in ("rep", "non", "m", "preds")}})
     # ---- code -> spec: real covariate-free runs on random elections
-    real = [t for part in real_async.get() for t in part]
+    real = _split_raised(run, [t for part in real_async.get() for t in part])
     run.witness("real_covariate_free_runs", len(real))
     _tick("c05 real runs")
-    run.sample({"recorded_run": {"rep": real[0]["rep"][:4], "non": real[0]["non"][:3], "pred": real[0]["pred"][:3]}})
+    if real:
+        run.sample({"recorded_run": {"rep": real[0]["rep"][:4], "non": real[0]["non"][:3], "pred": real[0]["pred"][:3]}})
     _validate(
         run,
         "Trace_UniformSwing",
